@@ -257,7 +257,7 @@ def replay_main(pid, tier, call):
 
 
 def _write_harness(spec, tier):
-    d = os.path.join(WORK, spec.pid, tier)
+    d = os.path.join(WORK, spec.pid, f"{tier}.{os.getpid()}")  # per invocation: concurrent runs of one check do not collide
     shutil.rmtree(d, ignore_errors=True)
     os.makedirs(d, exist_ok=True)
     path = os.path.join(d, f"h_{spec.pid.lower()}.py")
@@ -476,7 +476,7 @@ def run(pid, tier="quick", jobs=None, keep=False, only=None):
     print(f"{pid} {tier}: conditions={len(conds)} discharged={discharged} inconclusive={inconclusive} "
           f"violations={len(violations)} known={len(seen)} paths={evaluations} wall={ev['wall_s']}s")
     if not keep:
-        shutil.rmtree(os.path.join(WORK, pid, tier), ignore_errors=True)
+        shutil.rmtree(os.path.dirname(path), ignore_errors=True)
     if violations:
         return EXIT_VIOLATION
     if problems:
